@@ -1,12 +1,21 @@
 /-
 C15 — nearest-neighbour bookkeeping (property theorems; order-only).
 
-Helper lemmas live in `Pastel/Lemmas/Distinct.lean`.
+The distance is an arbitrary function `dist : Nat → Nat → D` on colour indices that is
+symmetric, never NaN and bounded by the sentinel (`DistOk`); nothing else about colour science
+is used, and `D` is any scalar type with the IEEE-like order laws (`ScOrd`) — in particular
+`Float` (instance proved from `Float.Model`).  Ties and duplicates are covered: `Good` only asks
+that *a* minimiser be recorded.
+
+Helper lemmas live in `Pastel/Lemmas/Distinct*.lean` (the loop invariant of one pass of
+`update_distances` is `scan_spec`).
 -/
 import Pastel.Lemmas.Distinct
+import Pastel.Lemmas.DistinctExact
+import Pastel.Lemmas.DistinctTotals
 
 namespace Pastel.C15
-open Pastel
+open Pastel Sc ScOrd
 
 variable {D : Type} [Sc D]
 
@@ -38,5 +47,120 @@ theorem history_length (big : D) (n : Nat) :
     simp only [List.foldl_cons]
     apply ih
     rw [(drUpdate_length big dc.1 n r dc.2).1, h]
+
+section exactness
+variable [ScOrd D]
+
+/-- **`DistanceResult::new` equals recomputation from scratch**: for every colour the recorded
+distance is the true minimum distance to any other colour and the recorded neighbour attains it
+(at least two colours; with fewer there is no neighbour to record). -/
+theorem new_exact (big : D) (dist : Nat → Nat → D) (n k : Nat) (hd : DistOk big dist) (hn : 2 ≤ n) :
+    Exact dist n (drNew big dist n k).closest :=
+  new_table_exact big dist n hd hn
+
+/-- **One incremental update keeps the table equal to recomputation.** `dist` is the distance
+function before colour `c` changed, `dist'` after; they agree on every pair not involving `c`. -/
+theorem update_exact (big : D) (dist dist' : Nat → Nat → D) (n c : Nat) (hd' : DistOk big dist')
+    (hn : 2 ≤ n) (hc : c < n) (hagree : ∀ i j, i ≠ c → j ≠ c → dist' i j = dist i j)
+    (r : DistanceResult D) (hex : Exact dist n r.closest) :
+    Exact dist' n (drUpdate big dist' n r c).closest :=
+  update_table_exact big dist dist' n c hd' hn hc hagree r.closest hex
+
+/-- A history of single-colour changes: each step names the changed colour and the distance
+function afterwards, which agrees with the previous one away from that colour. -/
+def Chain (big : D) (n : Nat) : (Nat → Nat → D) → List ((Nat → Nat → D) × Nat) → Prop
+  | _, [] => True
+  | d, (d', c) :: rest =>
+    c < n ∧ DistOk big d' ∧ (∀ i j, i ≠ c → j ≠ c → d' i j = d i j) ∧ Chain big n d' rest
+
+/-- The distance function in force after a history. -/
+def lastDist (d : Nat → Nat → D) : List ((Nat → Nat → D) × Nat) → (Nat → Nat → D)
+  | [] => d
+  | (d', _) :: rest => lastDist d' rest
+
+theorem history_exact_from (big : D) (n : Nat) (hn : 2 ≤ n) :
+    ∀ (hist : List ((Nat → Nat → D) × Nat)) (d : Nat → Nat → D) (r : DistanceResult D),
+      Exact d n r.closest → Chain big n d hist →
+      Exact (lastDist d hist) n
+        (hist.foldl (fun r (dc : (Nat → Nat → D) × Nat) => drUpdate big dc.1 n r dc.2) r).closest := by
+  intro hist
+  induction hist with
+  | nil => intro d r h _; exact h
+  | cons dc rest ih =>
+    intro d r h hch
+    obtain ⟨d', c⟩ := dc
+    obtain ⟨hc, hd', hag, hrest⟩ := hch
+    simp only [List.foldl_cons, lastDist]
+    exact ih d' _ (update_exact big d d' n c hd' hn hc hag r h) hrest
+
+/-- **After any history of single-colour changes the incrementally maintained table is the one
+obtained by recomputing from scratch** — for every number of fixed colours, with duplicates and
+equidistant ties. -/
+theorem reachable_exact (big : D) (n k : Nat) (hn : 2 ≤ n) (d0 : Nat → Nat → D) (hd0 : DistOk big d0)
+    (hist : List ((Nat → Nat → D) × Nat)) (hch : Chain big n d0 hist) :
+    Exact (lastDist d0 hist) n
+      (hist.foldl (fun r (dc : (Nat → Nat → D) × Nat) => drUpdate big dc.1 n r dc.2) (drNew big d0 n k)).closest :=
+  history_exact_from big n hn hist d0 _ (new_exact big d0 n k hd0 hn) hch
+
+/-- **Aggregates.** The reported minimum distance is a lower bound of every entry among the
+colours that are free or whose neighbour is free; if there is such an entry, the reported closest
+pair is one of them, attains the minimum (IEEE-equal) and contains at least one free colour. -/
+theorem totals_spec (big : D) (k : Nat) (prev : Nat × Nat) (t : List (Entry D)) (hbig : isNaN big = false)
+    (hall : ∀ e ∈ t, isNaN e.1 = false ∧ e.1 ≤ big) :
+    (∀ j e, t[j]? = some e → Eligible k j e → (updateTotals big k prev t).min ≤ e.1) ∧
+    ((∃ j e, t[j]? = some e ∧ Eligible k j e) →
+      ∃ j e, t[j]? = some e ∧ Eligible k j e ∧ (updateTotals big k prev t).pair = (j, e.2) ∧
+        feq e.1 (updateTotals big k prev t).min = true ∧ (j ≥ k ∨ e.2 ≥ k)) := by
+  have h0 : TotInv big k prev [] { mean := 0.0, min := big, pair := prev, pairSet := false } :=
+    ⟨hbig, fun j e h => by simp at h, fun _ => ⟨rfl, rfl, rfl⟩, fun ⟨j, e, h, _⟩ => by simp at h⟩
+  have hinv := totals_fold big k prev hbig t [] _ hall h0
+  simp only [List.nil_append, List.length_nil] at hinv
+  unfold updateTotals
+  simp only []
+  refine ⟨hinv.minLe, ?_⟩
+  intro hex
+  obtain ⟨_, j, e, he, hel, hp, hq⟩ := hinv.some_seen hex
+  refine ⟨j, e, he, hel, hp, hq, ?_⟩
+  unfold Eligible at hel
+  by_cases h1 : j < k
+  · right
+    by_cases h2 : e.2 < k
+    · exact absurd ⟨h1, h2⟩ hel
+    · omega
+  · left; omega
+
+/-- On an exact table all entries are proper distances, so `totals_spec` applies: the reported
+closest pair `(i, j)` is a pair of colours at the reported minimum distance with a free member. -/
+theorem exact_totals (big : D) (dist : Nat → Nat → D) (n k : Nat) (prev : Nat × Nat) (hd : DistOk big dist)
+    (t : List (Entry D)) (hex : Exact dist n t)
+    (helig : ∃ j e, t[j]? = some e ∧ Eligible k j e) :
+    ∃ i m, i < n ∧ m < n ∧ m ≠ i ∧ (updateTotals big k prev t).pair = (i, m) ∧
+      feq (dist i m) (updateTotals big k prev t).min = true ∧ (i ≥ k ∨ m ≥ k) := by
+  have hbig : isNaN big = false := (not_nan_of_lt (hd.lt_big 0 0)).2
+  have hall : ∀ e ∈ t, isNaN e.1 = false ∧ e.1 ≤ big := by
+    intro e he
+    obtain ⟨i, hi, hie⟩ := List.getElem_of_mem he
+    have hin : i < n := by rw [← hex.1]; exact hi
+    obtain ⟨m, _, _, hm, _⟩ := hex.2 i hin
+    rw [List.getElem?_eq_getElem hi, hie] at hm
+    have : e = (dist i m, m) := Option.some.inj hm
+    rw [this]
+    exact ⟨hd.notNaN i m, le_of_lt (hd.lt_big i m)⟩
+  obtain ⟨j, e, he, _, hp, hq, hfree⟩ := (totals_spec big k prev t hbig hall).2 helig
+  have hjn : j < n := by rw [← hex.1]; exact (List.getElem?_eq_some_iff.mp he).1
+  obtain ⟨m, hm, hmj, hme, _⟩ := hex.2 j hjn
+  rw [he] at hme
+  have : e = (dist j m, m) := Option.some.inj hme
+  subst this
+  exact ⟨j, m, hjn, hm, hmj, hp, hq, hfree⟩
+
+end exactness
+
+/-- The same for real IEEE binary64 distances (demands `ScOrd Float`, proved from `Float.Model`). -/
+theorem float_update_exact (big : Float) (dist dist' : Nat → Nat → Float) (n c : Nat) (hd' : DistOk big dist')
+    (hn : 2 ≤ n) (hc : c < n) (hagree : ∀ i j, i ≠ c → j ≠ c → dist' i j = dist i j)
+    (r : DistanceResult Float) (hex : Exact dist n r.closest) :
+    Exact dist' n (drUpdate big dist' n r c).closest :=
+  update_exact big dist dist' n c hd' hn hc hagree r hex
 
 end Pastel.C15
